@@ -253,9 +253,11 @@ def run_history(res, rng, model):
         return
     install(res, {"model": model, "driver": "history"})
     nsteps = rng.randint(3, 25 if M.kind_of(model) == "nuc" else 8)
+    known_bounds = {}
+    tight_ever = set()
 
     def one_op(op_rng):
-        kind = op_rng.choice(["init", "init", "const", "indep", "edges", "clade", "bounds", "mprobs", "aln", "length", "unconst"])
+        kind = op_rng.choice(["init", "init", "const", "indep", "edges", "clade", "bounds", "tight", "mprobs", "aln", "length", "unconst"])
         par = op_rng.choice(pars)
         v = round(math.exp(op_rng.uniform(math.log(0.2), math.log(5))), 4)
         if kind == "init":
@@ -285,6 +287,12 @@ def run_history(res, rng, model):
         if kind == "bounds":
             lf.set_param_rule(par, lower=0.01, upper=50.0)
             return ("bounds", par)
+        if kind == "tight":
+            # an upper bound inside the range later inits are drawn from: a later init above it must be clipped to it
+            # (and the exported rules must describe a function with the same likelihood)
+            u = round(op_rng.uniform(1.2, 3.0), 3)
+            lf.set_param_rule(par, upper=u)
+            return ("tight", par, u)
         if kind == "mprobs":
             if M.mprob_kind(model) == "fixed-equal":
                 return None
@@ -294,7 +302,7 @@ def run_history(res, rng, model):
             return ("mprobs",)
         if kind == "aln":
             ml = {"nuc": 1, "codon": 3}[M.kind_of(model)]
-            newaln = M.random_alignment(op_rng, list(prob["aln"]), "codon" if ml == 3 else "nuc", op_rng.randint(3, 20 if ml == 1 else 8), op_rng.choice([0.0, 0.1]), motif_len=1)
+            newaln = M.random_alignment(op_rng, list(prob["aln"]), "codon" if ml == 3 else "nuc", op_rng.randint(3, 20 if ml == 1 else 8), op_rng.choice([0.0, 0.1]), motif_len=1, gc=prob.get("gc", 1))
             prob["aln"] = newaln
             lf.set_alignment(make_aligned_seqs(newaln, moltype="dna"))
             return ("aln", len(next(iter(newaln.values()))))
@@ -325,6 +333,17 @@ def run_history(res, rng, model):
             res.witness(exc_mechanism(f"C07/history/{ops_done[-1] if ops_done else 'op'}", e), model=model, history=history, error=repr(e)[:300], base=prob_brief(prob))
             break
         # a rule that names a value must be reflected by the value the function reports for that scope
+        # bounds the harness knows for a parameter (same on every edge): set by 'bounds'/'tight', forgotten on any
+        # scope-changing rule; once a tight bound was applied and then forgotten, values of that parameter are no
+        # longer predicted (they may legitimately be clipped)
+        for d_ in (history[-1][1] if history[-1][0] == "postponed" else [history[-1]]):
+            if d_[0] == "bounds":
+                known_bounds[d_[1]] = (0.01, 50.0)
+            elif d_[0] == "tight":
+                known_bounds[d_[1]] = (known_bounds.get(d_[1], (1e-6, 1e6))[0], d_[2])
+                tight_ever.add(d_[1])
+            elif d_[0] in ("indep", "edges", "clade", "unconst", "const") and len(d_) > 1:
+                known_bounds.pop(d_[1], None)
         binding = {}  # (par, edge) -> (value, op kind); later rules override earlier ones, other rule kinds unbind
         for d_ in (history[-1][1] if history[-1][0] == "postponed" else [history[-1]]):
             if d_[0] == "length":
@@ -339,6 +358,12 @@ def run_history(res, rng, model):
                 for k_ in [k_ for k_ in binding if k_[0] == d_[1]]:
                     del binding[k_]
         for (par_, e_), (v_, kind_) in binding.items():
+            if par_ in tight_ever and par_ not in known_bounds:
+                continue
+            if par_ in known_bounds and kind_ != "const":
+                v_ = min(max(v_, known_bounds[par_][0]), known_bounds[par_][1])  # documented: values are clipped into bounds
+            elif par_ in known_bounds:
+                continue
             try:
                 got_ = float(lf.get_param_value(par_, edge=e_))
             except Exception:  # noqa: BLE001 - value differs across bins/loci: not expressible by one scope
